@@ -380,6 +380,11 @@ class Merger:
                 prefix="Merger::_merge_arrays_of_hashes:  ", data=ele)
 
             if merge_mode is AoHMergeOpts.DEEP:
+                if not isinstance(ele, CommentedMap):
+                    raise MergeException(
+                        "Impossible to deeply merge a non-Hash element of an"
+                        " Array-of-Hashes.", path_next)
+
                 if id_key in ele:
                     id_val = Nodes.tagless_value(ele[id_key])
                 else:
@@ -445,7 +450,10 @@ class Merger:
             # This list is an Array-of-Arrays or a simple list of Scalars
             return self._merge_simple_lists(lhs, rhs, path, node_coord)
 
-        # No RHS list
+        # No RHS list; nothing to add but the destination must be an Array
+        if not isinstance(lhs, CommentedSeq):
+            raise MergeException(
+                "Impossible to add Array data to non-Array destination.", path)
         return lhs
 
     def _merge_sets(
@@ -468,6 +476,10 @@ class Merger:
         Raises:
         - `MergeException` when a clean merge is impossible.
         """
+        if not isinstance(lhs, CommentedSet):
+            raise MergeException(
+                "Impossible to add Set data to non-Set destination.", path)
+
         merge_mode = self.config.set_merge_mode(node_coord)
         if merge_mode is SetMergeOpts.LEFT:
             return lhs
@@ -642,6 +654,11 @@ class Merger:
                 " source Hash because only the keys would be"
                 " preserved.  Please adjust your merge to target a"
                 " suitable node.", insert_at)
+        elif not isinstance(lhs, CommentedMap):
+            # Merge a dict into a scalar
+            raise MergeException(
+                "Impossible to add Hash data to non-Hash destination.",
+                insert_at)
         else:
             # Merge a dict into a dict
             self.logger.debug(
@@ -697,6 +714,10 @@ class Merger:
                 "Merger::_insert_list:  Merging a list into a set.")
             mset = CommentedSet()
             for ele in rhs:
+                if isinstance(ele, (dict, list, CommentedSet)):
+                    raise MergeException(
+                        "Impossible to add complex Array elements to a Set.",
+                        insert_at)
                 mset.add(ele)
             merged_data = self._merge_sets(
                 lhs, mset, insert_at, NodeCoords(rhs, None, None))
